@@ -264,7 +264,16 @@ func c06Writer() {
 	}
 	for i := 0; i < n; i++ {
 		d := ref.HarnessDefs[dsim.Choose(len(ref.HarnessDefs))]
-		if err := write(d, genValues(d)); err != nil {
+		vals := genValues(d)
+		if dsim.Choose(4) == 0 {
+			// the longest frame there is: 255 payload bytes that truncation cannot shorten, signed
+			d = ref.DefByID(ref.HarnessDefs, 184)
+			vals = genValues(d)
+			last := vals[len(vals)-1].Elems
+			last[len(last)-1] = uint64(1 + dsim.Choose(255))
+			count("cov:signed-maximum-length-frame")
+		}
+		if err := write(d, vals); err != nil {
 			dsim.Failf("sign-writer", "write %d of %s refused: %v", i, d.Name, err)
 			return
 		}
